@@ -109,7 +109,8 @@ Fixpoint norm (d : dtype) (v : pval) {struct d} : result pval :=
   | DInt, VInt z => Ok (VInt z)
   | DInt, VBool b => Ok (VInt (if b then 1 else 0))
   | DFloat, VFloat r => if float_ok r then Ok (VFloat r) else Error EBadKind
-  | DFloat, VInt z => if Z.abs z <? float_of_int_limit then Ok (VFloat (dec z ++ ".0")) else Error EBadKind
+  | DFloat, VInt z => if (Z.abs z <? float_of_int_limit) && float_ok (dec z ++ ".0")
+                      then Ok (VFloat (dec z ++ ".0")) else Error EBadKind
   | DFloat, VBool b => Ok (VFloat (if b then "1.0" else "0.0"))
   | DStr, VStr s => Ok (VStr s)
   | DBool, VBool b => Ok (VBool b)
